@@ -5,6 +5,10 @@
 pub mod h1;
 pub mod h1codec;
 pub mod master;
+pub mod tcp;
+pub mod h2;
+pub mod h2codec;
+pub mod tls;
 
 use serde::{Deserialize, Serialize};
 
